@@ -122,7 +122,9 @@ class DataView:
                 self.found = (needle, r, attr)
                 return r
             return Native(find, "bytearray.find")
-        if attr == "rfind" or attr in ("rstrip", "strip", "split", "rindex", "partition", "rpartition", "replace"):
+        if attr == "rfind" or attr in ("rstrip", "lstrip", "strip", "split", "rsplit", "rindex", "partition", "rpartition", "replace", "removeprefix",
+                                       "removesuffix", "translate", "lower", "upper", "swapcase", "title", "capitalize", "expandtabs", "zfill",
+                                       "ljust", "rjust", "center"):
             def other(ev, a, k, n):
                 self.ops.append((attr, tuple(repr(x) for x in a)))
                 return DataView(self.data, self.lo, self.hi, True, self.ops) if attr != "rfind" else B.fresh("rfind", -1, None)
